@@ -68,6 +68,15 @@ func RunA(c CaseA) core.Result {
 		res.Inconclusive = ref.Inconclusive
 		return res
 	}
+	// the accessor clause, reached through the wire: reading the fields of a (malformed) message never
+	// panics inside the message reader (other panics are C04's business)
+	for _, p := range ref.Panics {
+		if strings.Contains(p.Stack, "pkg/buffer.(*Reader)") {
+			res.Sig, res.Violation = "C03/a/accessor-panic", fmt.Sprintf("a message field accessor panicked on client data: %s\n%s", p.Value, clip(p.Stack))
+			res.NonTrivial = true
+			return res
+		}
+	}
 	refTrace := normTrace(ref.Trace)
 	for i, cut := range c.Cuts {
 		h := c.History
